@@ -115,6 +115,16 @@ func c02Body(t *rapid.T, id, kind string, cfg c02Cfg, labels map[string]bool) *a
 		obs = append(obs, ast.Dollar())
 	}
 	stmts := []*ast.Node{ast.Print(obs...)}
+	if kind == "pattern" && rapid.IntRange(0, 5).Draw(t, "writebinding") == 0 {
+		// the program overwrites $index / $file: the next element (value) gets a fresh binding
+		if cfg.allArrays && rapid.Bool().Draw(t, "writeindex") {
+			stmts = append(stmts, ast.ExprS(ast.Asg("+=", ast.Id("$index"), ast.Num("100"))), ast.Print(ast.Str(id+"-idx"), ast.Id("$index")))
+			labels["program-writes-$index"] = true
+		} else {
+			stmts = append(stmts, ast.ExprS(ast.Set(ast.Id("$file"), ast.Bin("+", ast.Id("$file"), ast.Str("!")))), ast.Print(ast.Str(id+"-file"), ast.Id("$file")))
+			labels["program-writes-$file"] = true
+		}
+	}
 	if kind == "BEGINFILE" && cfg.rootReplaced && rapid.Bool().Draw(t, "assignroot") {
 		// assigning $ in BEGINFILE replaces the root for the pattern rules that follow
 		stmts = append(stmts, ast.ExprS(ast.Set(ast.Dollar(), c02Selector(t))), ast.Print(ast.Str(id+"-root"), ast.Dollar()))
